@@ -223,7 +223,20 @@ def rule_label(ctx: Ctx) -> RuleReport:
         lexical = [c for c in relabel if c.args and norm(c.args[0]) == v_path and any(k.arg == "resolve" and isinstance(k.value, ast.Constant) and k.value.value is False for k in c.keywords)
                    and norm(c.func.value) == f"{tv}.get_metadata()"]
         before_yield = bool(lexical) and bool(yields) and lexical[0].lineno < yields[0].lineno
-        if lexical and before_yield and len(relabel) == len(lexical):
+        # ... for every member: the only results that keep their label are those of a nested archive (labelled by the inner call)
+        skip_label = None
+        if lexical:
+            conds, opaque, _ = path_conditions(pe.node, lexical[0])
+            inside = [str(c) for c in conds if lexical[0].lineno >= loops[0].lineno and any(x is lexical[0] for x in ast.walk(loops[0]))] + list(opaque)
+            extra = [c for c in inside if c not in (f"{v_ext} is not read_archive",) and not c.startswith("except ")]
+            # conditions that already hold when the loop is entered do not make the labelling partial
+            loop_conds, loop_opaque, _ = path_conditions(pe.node, loops[0])
+            extra = [c for c in extra if c not in {str(x) for x in loop_conds} | set(loop_opaque)]
+            if extra:
+                skip_label = extra
+        if skip_label:
+            rep.fail(Finding("C10-LABEL", ARCH, pe.qual, "member label only when " + " and ".join(skip_label), f"the lexical label is applied only when `{' and '.join(skip_label)}`: for the other members the label computed with resolve=True stays, i.e. a relative member name resolved against the working directory of the host", line=lexical[0].lineno))
+        elif lexical and before_yield and len(relabel) == len(lexical):
             rep.ok({"_process_archive_entry": "member results are labelled lexically (resolve=False) before they are yielded"})
         else:
             rep.fail(Finding("C10-LABEL", ARCH, pe.qual, "member label resolved on the host", "the results of a member keep the label computed by populate_from_path(<member name>) with resolve=True: a relative member name is resolved against the working directory of the host (and against files that happen to exist there), so the same archive bytes give different file_path / folder_path on different hosts", line=loops[0].lineno))
@@ -713,11 +726,52 @@ def rule_folder(ctx: Ctx) -> RuleReport:
             rep.ok({"extractall": f"{pname} = {norm(a)} varies with the folder"})
         else:
             rep.fail(Finding("C10-FOLDER", SZ, ex.qual, f"{pname}={norm(a)}", f"`{pname}` passed to _decompress_folder is the same for every folder: with more than one folder every folder is decoded from the first pack stream", line=c.lineno))
+    # a position that is carried from folder to folder (an accumulator) is advanced on every way round the loop: the handler that skips a
+    # damaged folder (`continue`) and the folders without files must advance it too, or every later folder is read from the wrong offset
+    a = pos_args.get("pack_pos")
+    acc = [x.id for x in ast.walk(a) if isinstance(x, ast.Name) and x.id not in lvars] if a is not None else []
+    for name in acc:
+        augs = [n for n in ast.walk(ast.Module(body=loop.body, type_ignores=[])) if isinstance(n, ast.AugAssign) and isinstance(n.target, ast.Name) and n.target.id == name]
+        plain = [n for n in ast.walk(ast.Module(body=loop.body, type_ignores=[])) if isinstance(n, ast.Assign) and any(isinstance(t, ast.Name) and t.id == name for t in n.targets)]
+        if not augs:
+            continue  # recomputed from the folder index each time (the form of the repaired tree): nothing is carried
+        if plain and all({x.id for x in ast.walk(p.value) if isinstance(x, ast.Name)} & lvars for p in plain):
+            continue
+        cfg = ctx.cfg(ex)
+        adv = [x for n in augs for x in cfg.evaluators(n)]
+        heads = [nd.id for nd in cfg.nodes if nd.kind in ("loop", "test", "for") and getattr(nd, "ast", None) is loop] or cfg.evaluators(loop.iter)
+        # every `continue` of the loop, and the end of the body, is preceded by the advance on all paths from the loop head
+        exits_ = [x for n in ast.walk(ast.Module(body=loop.body, type_ignores=[])) if isinstance(n, ast.Continue) for x in cfg.evaluators(n)]
+        missed = [e for e in exits_ if not normally_dominates_within(cfg, adv, e, heads)]
+        if missed:
+            ln = cfg.nodes[missed[0]].ast.lineno if hasattr(cfg.nodes[missed[0]], "ast") and hasattr(cfg.nodes[missed[0]].ast, "lineno") else loop.lineno
+            rep.fail(Finding("C10-FOLDER", SZ, ex.qual, f"accumulated {name} not advanced before continue", f"`{name}` is carried from folder to folder (`{short(augs[0], 40)}`) but a `continue` of the folder loop (line {ln}) is reached without advancing it: after a damaged or file-less folder every later folder is decoded from the wrong offset and its members are lost", line=ln))
+        else:
+            rep.ok({"extractall": f"{name} advanced on every way round the folder loop"})
     # _decompress_folder keeps no hidden cursor
     stores = [n for n in walk_own(df.node) if isinstance(n, (ast.Assign, ast.AugAssign)) and any(isinstance(t, ast.Attribute) and isinstance(t.value, ast.Name) and t.value.id == "self" for t in (n.targets if isinstance(n, ast.Assign) else [n.target]))]
     if stores:
         rep.info.append("_decompress_folder writes attributes: " + "; ".join(norm(s) for s in stores))
     return rep
+
+
+def normally_dominates_within(cfg, through, target: int, heads) -> bool:
+    """Every path from a loop head to `target` passes one of `through` (paths that leave the head again are cut at the head)."""
+    through = set(through)
+    if target in through:
+        return True
+    seen, stack = set(), [s_ for h in heads for s_ in cfg.succ[h]]
+    while stack:
+        n = stack.pop()
+        if n in seen or n in through:
+            continue
+        seen.add(n)
+        if n == target:
+            return False
+        if n in heads:
+            continue
+        stack.extend(cfg.succ[n])
+    return True
 
 
 def rule_dispatch(ctx: Ctx) -> RuleReport:
